@@ -642,6 +642,10 @@ func (s *Sim) newBase(c *Conn) *mqtt.BaseClient {
 			r.Err = err.Error()
 			r.Cls = classify(err)
 		}
+		if s.sc.Cfg.StateCBReenters {
+			// an application callback that looks at the client it was called for
+			_ = cli.Done()
+		}
 		// what Err() says at the time of the callback
 		if e2 := cli.Err(); e2 != nil {
 			r.B = e2 == err
